@@ -1158,9 +1158,15 @@ class FnTranslator:
                 keys = [k for k in self.assigned_keys([s], env) if not self.is_tuple_tmp(k)]
                 kt = self.assigned_keys(s.body, env) or []
                 ke = self.assigned_keys(s.orelse, env) if s.orelse else []
+                local = []
                 for k in keys:
                     if k not in env and not (k in kt and k in (ke or [])):
-                        raise Refuse('%s: %s assigned in a nested branch only and not defined before' % (self.rel, k))
+                        if k in names:
+                            raise Refuse('%s: %s assigned in a nested branch only and not defined before' % (self.rel, k))
+                        # [loop ties C07] not wanted by the enclosing if (block() lists in `names` everything read later):
+                        # a temporary of that side (a later read in this branch finds no binding and is refused)
+                        local.append(k)
+                keys = [k for k in keys if k not in local]
                 nw = self.narrowing(s.test, env)
                 if nw is not None:
                     # narrowing of an optional name inside the nested then-side, as in block()
